@@ -25,3 +25,4 @@ def run(chk):
     clones.rule_clones(chk, 'N1', select=lambda s: not _re.search(r'gcm|ccm|cmac|xcbc|ghash|gmac|pon|docsis.*crc', s), floor=20)
     clones.rule_const_width(chk, 'N2', floor=100)
     clones.rule_threshold_tests(chk, 'N3', floor=20)
+    clones.rule_defuse(chk, 'D1', 'D2', ('cipher',), floor=50)
